@@ -305,12 +305,14 @@ theorem finalizeStandard_ok_count (w : Writer) (width height : Nat) (md : Option
     · next h1 =>
       split at h
       · simp at h
-      · next hp =>
-        have hz := moovPanics_sizes _ _ _ _ _ (by simpa using hp)
-        have hle := length_le_sum_sizes w.vsRev.reverse hz.1
-        have hle2 := length_le_sum_sizes w.asRev.reverse (hz.2 rfl)
-        simp only [u32Max, List.length_reverse] at hle hle2 h1
-        exact ⟨by omega, fun _ => by omega⟩
+      · split at h
+        · simp at h
+        · next hp =>
+          have hz := moovPanics_sizes _ _ _ _ _ (by simpa using hp)
+          have hle := length_le_sum_sizes w.vsRev.reverse hz.1
+          have hle2 := length_le_sum_sizes w.asRev.reverse (hz.2 rfl)
+          simp only [u32Max, List.length_reverse] at hle hle2 h1
+          exact ⟨by omega, fun _ => by omega⟩
 
 theorem finalizeFastStart_ok_count (w : Writer) (width height : Nat) (md : Option Metadata) (vc : VideoConfig)
     (h : (finalizeFastStart w width height md vc).res = .ok) :
